@@ -98,6 +98,8 @@ class Creators:
         # refuse the line before anything of it is kept
         raise gfapy.VersionError(
           "GFA specification version {} not supported".format(gfa_line.VN))
+      if gfa_line.VN == "2.0":
+        self._check_version_allowed_by_dialect("gfa2")
       self.header._merge(gfa_line)
       self._n_input_header_lines += 1
       if gfa_line.VN:
@@ -115,6 +117,7 @@ class Creators:
       if isinstance(gfa_line, str):
         gfa_line = gfapy.Line(gfa_line, vlevel=self._vlevel,
             dialect=self._dialect)
+      self._check_version_allowed_by_dialect(gfa_line.version)
       self._version = gfa_line.version
       self._version_explanation = \
           "implied by: syntax of S {} line".format(gfa_line.name)
@@ -125,6 +128,7 @@ class Creators:
         gfa_line = gfapy.Line(gfa_line, vlevel=self._vlevel,
             version="gfa2", dialect=self._dialect)
       # a line which cannot be parsed does not decide the version
+      self._check_version_allowed_by_dialect("gfa2")
       self._version = "gfa2"
       self._version_explanation = "implied by: presence of a {} line".format(rt)
       self.process_line_queue()
